@@ -294,7 +294,8 @@ package saml2
 //@   requires el != nil && !(obj is *etree.Element) && !(obj is *etree.Document)
 //@   requires [C01, C03, C04, C08] zero.response: obj is *types.Response ==> *obj.(*types.Response) == types.Response{}
 //@   requires [C01, C03, C04, C08] zero.assertion: obj is *types.Assertion ==> *obj.(*types.Assertion) == types.Assertion{}
-//@   requires [C10, C04] zero.logoutresponse: obj is *types.LogoutResponse ==> *obj.(*types.LogoutResponse) == types.LogoutResponse{}
+//@   requires [C10, C04, C20] zero.logoutresponse: obj is *types.LogoutResponse ==> *obj.(*types.LogoutResponse) == types.LogoutResponse{}
+//@   requires [C20] zero.unverified: obj is *types.UnverifiedBaseResponse ==> *obj.(*types.UnverifiedBaseResponse) == types.UnverifiedBaseResponse{}
 //@   requires [C10, C04] zero.logoutrequest: obj is *LogoutRequest ==> *obj.(*LogoutRequest) == LogoutRequest{}
 //@   requires [C07] zero.encrypted: obj is *types.EncryptedAssertion ==> *obj.(*types.EncryptedAssertion) == types.EncryptedAssertion{}
 //@   safety [C09]
@@ -310,6 +311,7 @@ package saml2
 //@   ensures [C04] flag.logoutresponse: obj is *types.LogoutResponse ==> !obj.(*types.LogoutResponse).SignatureValidated
 //@   ensures [C04] flag.logoutrequest: obj is *LogoutRequest ==> !obj.(*LogoutRequest).SignatureValidated
 //@   ensures [C09] rooted: el.parent != nil
+//@   ensures [C20, C08] docroot: el.parent.parent == nil
 //@   ensures [C01, C02] nosentinel: err != etreeutils.ErrTraversalHalted && err != dsig.ErrMissingSignature
 
 //@ pure func EffLimit(maxSize int64) int64 {
@@ -409,6 +411,8 @@ package saml2
 
 // decryptAssertions replaces every EncryptedAssertion that is a direct child of el by the parse of its
 // plaintext. It confers no trust: nothing it adds is marked verified (Verified comes only from Validate).
+// Whatever it adds under el is a saml:Assertion element (C20, C08): no other Response-level child (Issuer, Status,
+// ...) can come out of a ciphertext, so the Response-level values decoded afterwards are those of the wire document.
 //@ func (sp *SAMLServiceProvider) decryptAssertions(el *etree.Element) (err error)
 //@   requires SPValid(sp) && el != nil && el.parent != nil
 //@   safety [C09]
@@ -418,6 +422,7 @@ package saml2
 //@     invariant [C09] certok: decryptCert != nil ==> KeyOK(decryptCert.PrivateKey)
 //@     invariant [C09] rooted: el.parent != nil
 //@     visit [C07, C01] direct: old($m.parent) == el
+//@     visit [C20, C08] assertion.only: forall e *etree.Element :: e.parent == el && old(e.parent) != el ==> e.Tag == AssertionTag && nsURI(e) == SAMLAssertionNamespace
 //@     nohalt [C11, C07]
 
 // ---------------------------------------------------------------------------
